@@ -23,6 +23,19 @@ Theorem parse_explain_id_fragment_gsub :
 Proof. exact parse_explain_gsub. Qed.
 Print Assumptions parse_explain_id_fragment_gsub.
 
+(* the GSUB fragment enlarged by GSUB5 (contextual substitution) in its three
+   forms, several subtables per lookup: glyph sequences "A B -> 1@0, ...",
+   classes with their definitions "class :c1: = [...]" and rules over class
+   names, coverage sets "[A B] [C] -> 1@0"; each rule with its nested-action
+   list.  The font must not have a glyph called "class". *)
+Theorem parse_explain_id_fragment_gsub5 :
+  forall (U : uclass) (F : font) (ll : list lookup),
+    font_wf U F = true -> no_class_names F = true ->
+    Forall (fun lk => gsub_lookup_wf5 F lk = true) ll ->
+    M_parse U F (M_explain_gsub U F ll) = POk ll.
+Proof. exact parse_explain_gsub5. Qed.
+Print Assumptions parse_explain_id_fragment_gsub5.
+
 (* GPOS side: GPOS1 lookups with one or more subtables (formats 1.1 and 1.2,
    value records over XPlacement, YPlacement, XAdvance), the descriptions
    joined by newlines as the callers of ExplainGpos do *)
